@@ -1175,6 +1175,27 @@ def _native_setget_sweep(tier="quick", seed=0):
         rec("C09.native.setget[%s]" % sig, wit)
     for lbl, bad in connector_refusal_probes():
         rec("C09.native." + lbl, bad)
+    # gradient stops are addressed by index: moving one stop past another changes neither which stop an index designates nor its colour
+    from pptx.dml.color import RGBColor as _RGB
+
+    bad = None
+    for seq in ([(1, 0.4), (0, 0.75)], [(0, 1.0), (1, 0.0)], [(0, 0.5), (1, 0.5)], [(1, 0.1), (0, 0.9), (1, 0.95), (0, 0.0)]):
+        prs_ = Presentation()
+        shp = prs_.slides.add_slide(prs_.slide_layouts[6]).shapes.add_shape(1, 0, 0, 100, 100)
+        shp.fill.gradient()
+        stops = shp.fill.gradient_stops
+        stops[0].color.rgb = _RGB(1, 1, 1)
+        stops[1].color.rgb = _RGB(2, 2, 2)
+        want = [stops[0].position, stops[1].position]
+        for i_, v_ in seq:
+            stops[i_].position = v_
+            want[i_] = v_
+        fresh = shp.fill.gradient_stops
+        got = [fresh[0].position, fresh[1].position]
+        cols = [str(fresh[0].color.rgb), str(fresh[1].color.rgb)]
+        if any(abs(a_ - b_) > 1e-5 for a_, b_ in zip(got, want)) or cols != ["010101", "020202"]:
+            bad = bad or "gradient stops after %s: positions by index %r (expected %r), colours by index %r (expected ['010101', '020202'])" % (seq, got, want, cols)
+    rec("C09.native.gradient_stops_keep_their_index_when_they_cross", bad)
     # connector end points: set / read back over every direction and every crossing (the grid of C17.native_geometry)
     from .c17 import _native_geometry
 
